@@ -5,6 +5,7 @@ import (
 	"bytes"
 	"encoding/json"
 	"fmt"
+	"strconv"
 	"strings"
 	"testing"
 
@@ -60,7 +61,21 @@ func replay(sub string, raw json.RawMessage) ([]h.Failure, error) {
 
 // value pool: fresh model values (and fresh elements) per use
 func poolValue(i int) zn.Value {
-	switch i % 9 {
+	switch i % 11 {
+	case 9: // a dictionary two lists deep (its key order must survive every rendering)
+		d := zn.NewDict()
+		d.Set("z", float64(1))
+		d.Set("a", float64(2))
+		return &zn.ListV{Items: []zn.Value{&zn.ListV{Items: []zn.Value{d}}}}
+	case 10:
+		d := zn.NewDict()
+		d.Set("m", &zn.ListV{Items: []zn.Value{}})
+		d.Set("b", zn.NullV{})
+		d.Set("k", "v")
+		inner := zn.NewDict()
+		inner.Set("y", d)
+		inner.Set("c", &zn.ListV{Items: []zn.Value{&zn.ListV{Items: []zn.Value{d}}}})
+		return inner
 	case 0:
 		return float64(0)
 	case 1:
@@ -431,7 +446,7 @@ func genListHistory(t *rapid.T) (*history, []string) {
 	hs := &history{Kind: "list"}
 	n0 := rapid.IntRange(0, 4).Draw(t, "n0")
 	for i := 0; i < n0; i++ {
-		hs.Init = append(hs.Init, rapid.IntRange(0, 8).Draw(t, "init"))
+		hs.Init = append(hs.Init, rapid.IntRange(0, 10).Draw(t, "init"))
 	}
 	nops := rapid.IntRange(1, 25).Draw(t, "nops")
 	size := n0
@@ -453,17 +468,17 @@ func genListHistory(t *rapid.T) (*history, []string) {
 		switch k {
 		case "get", "set":
 			o.I = rapid.IntRange(-1, size+2).Draw(t, "i")
-			o.V = rapid.IntRange(0, 8).Draw(t, "v")
+			o.V = rapid.IntRange(0, 10).Draw(t, "v")
 		case "swap":
 			o.I = rapid.IntRange(0, size+1).Draw(t, "i")
 			o.J = rapid.IntRange(0, size+1).Draw(t, "j")
 		case "merge":
-			o.Vs = rapid.SliceOfN(rapid.IntRange(0, 8), 0, 3).Draw(t, "vs")
+			o.Vs = rapid.SliceOfN(rapid.IntRange(0, 10), 0, 3).Draw(t, "vs")
 		case "merge-collections":
 			o.Vs = rapid.SliceOfN(rapid.IntRange(0, nSlots-1), 1, 3).Draw(t, "slots")
 			mut["merge-collections"] = true
 		default:
-			o.V = rapid.IntRange(0, 8).Draw(t, "v")
+			o.V = rapid.IntRange(0, 10).Draw(t, "v")
 		}
 		switch k {
 		case "append", "prepend":
@@ -532,6 +547,39 @@ func (o *omap) dict() *zn.DictV {
 }
 
 // jsonKeyOrder - top-level key order of a JSON object text
+// refJSON - compact JSON of a model value with every dictionary in insertion order (the
+// pool holds small integers, ASCII / CJK texts, 空, booleans, lists and dictionaries only)
+func refJSON(v zn.Value) string {
+	switch x := v.(type) {
+	case float64:
+		return strconv.FormatFloat(x, 'f', -1, 64)
+	case string:
+		b, _ := json.Marshal(x)
+		return string(b)
+	case bool:
+		if x {
+			return "true"
+		}
+		return "false"
+	case zn.NullV:
+		return "null"
+	case *zn.ListV:
+		parts := make([]string, len(x.Items))
+		for i, it := range x.Items {
+			parts[i] = refJSON(it)
+		}
+		return "[" + strings.Join(parts, ",") + "]"
+	case *zn.DictV:
+		parts := make([]string, len(x.Keys))
+		for i, k := range x.Keys {
+			kb, _ := json.Marshal(k)
+			parts[i] = string(kb) + ":" + refJSON(x.M[k])
+		}
+		return "{" + strings.Join(parts, ",") + "}"
+	}
+	return "?"
+}
+
 func jsonKeyOrder(s string) ([]string, error) {
 	dec := json.NewDecoder(bytes.NewReader([]byte(s)))
 	tok, err := dec.Token()
@@ -682,6 +730,10 @@ func runDict(hs *history) (fails []h.Failure) {
 					fail("json-invalid", err.Error()+": "+js.GetValue())
 					return
 				}
+				if want := refJSON(model.dict()); js.GetValue() != want {
+					fail("json-text", fmt.Sprintf("generated JSON %s; the dictionary in insertion order at every level is %s", js.GetValue(), want))
+					return
+				}
 				if strings.Join(order, "\x00") != strings.Join(model.keys, "\x00") {
 					fail("json-key-order", fmt.Sprintf("generated JSON %s lists keys %v, insertion order is %v", js.GetValue(), order, model.keys))
 					return
@@ -703,7 +755,7 @@ func TestDictHistories(t *testing.T) {
 		n0 := rapid.IntRange(0, 5).Draw(t, "n0")
 		for i := 0; i < n0; i++ {
 			hs.InitKeys = append(hs.InitKeys, rapid.SampledFrom(dictKeys).Draw(t, "k0"))
-			hs.Init = append(hs.Init, rapid.IntRange(0, 8).Draw(t, "v0"))
+			hs.Init = append(hs.Init, rapid.IntRange(0, 10).Draw(t, "v0"))
 		}
 		nops := rapid.IntRange(1, 25).Draw(t, "nops")
 		removed := map[string]bool{}
@@ -716,7 +768,7 @@ func TestDictHistories(t *testing.T) {
 		}
 		for i := 0; i < nops; i++ {
 			k := rapid.SampledFrom([]string{"dget", "dset", "dset", "dwrite", "dread", "ddel", "ddel", "dcopy"}).Draw(t, "op")
-			o := op{Op: k, K: rapid.SampledFrom(dictKeys).Draw(t, "key"), V: rapid.IntRange(0, 8).Draw(t, "v")}
+			o := op{Op: k, K: rapid.SampledFrom(dictKeys).Draw(t, "key"), V: rapid.IntRange(0, 10).Draw(t, "v")}
 			if multi {
 				o.S = rapid.IntRange(0, nSlots-1).Draw(t, "slot")
 			}
